@@ -20,15 +20,19 @@
      written decode time, presentation offset pts - dts and sync flag = random access; units earlier
      than -10 s are rejected silently; everything published is append-only and immutable and the
      advertised window is a suffix of it.
-   PARTIAL in three respects, decided on every run by the correspondence run (every decoded sample of
+   Proved for the MPEG-TS variant (log = the units of the evicted, listed and open segments, in order):
+   - c01_mpegts_video_write_log / c01_mpegts_audio_write_log: a write that returns nil appends exactly
+     its unit (pts / dts rescaled to 90 kHz, random-access flag, payload ids) or nothing (video unit
+     skipped before the first random-access one; audio unit of a non-leading track before the stream
+     has started); c01_mpegts_log_only_grows along every history of successful writes from Start.
+   PARTIAL in two respects, decided on every run by the correspondence run (every decoded sample of
    every published part / segment is compared with the model's, all six codecs) and by the oracle
-   over the harness's own write log: (1) the MPEG-TS variant has the append-only history theorem but
-   not the log theorems (its units live in sg_units); (2) "consecutive fragments have contiguous base
-   times" is not a theorem; (3) that the bytes served for a part decode to the model's p_samples is
-   the tie's claim, not a theorem (mediacommon's fMP4 writer is outside the model). *)
+   over the harness's own write log: (1) "consecutive fragments have contiguous base times" is not a
+   theorem; (2) that the bytes served for a part / segment decode to the model's samples / units is
+   the tie's claim, not a theorem (mediacommon's fMP4 and MPEG-TS writers are outside the model). *)
 From Coq Require Import List ZArith Bool.
 From GoHls Require Import Model.Mux Proofs.MuxStream Proofs.MuxLift Proofs.MuxWindow Proofs.MuxHistory
-  Proofs.MuxPlaylist Proofs.MuxSamples Proofs.MuxLog Proofs.MuxLogStep.
+  Proofs.MuxPlaylist Proofs.MuxSamples Proofs.MuxLog Proofs.MuxLogStep Proofs.MuxLogTS.
 Import ListNotations.
 Local Open Scope Z_scope.
 
@@ -110,6 +114,31 @@ Theorem c01_structure_reachable : forall c m0 ops,
   start c = Ok m0 -> c_variant c <> MPEGTS -> LI (mux_run m0 ops) /\ forall j, slog m0 j = [].
 Proof. exact structure_reachable. Qed.
 Print Assumptions c01_structure_reachable.
+
+(* ---- conservation of units (MPEG-TS) ---- *)
+Theorem c01_mpegts_video_write_log : forall m ti t a m',
+  TSI m -> nth_error (m_tracks m) ti = Some t -> t_kind (tk_cfg t) = H264 ->
+  write_video m ti t a = (m', Ok tt) ->
+  TSI m' /\ tslog m' = tslog m ++ (if video_skipped t a then [] else [ts_video_unit ti t a]).
+Proof. exact ts_video_log. Qed.
+Print Assumptions c01_mpegts_video_write_log.
+
+Theorem c01_mpegts_audio_write_log : forall m ti t a m',
+  TSI m -> nth_error (m_tracks m) ti = Some t ->
+  write_audio m ti t a = (m', Ok tt) ->
+  TSI m' /\ tslog m' = tslog m ++ (if negb (tk_leading t) && negb (ts_opened m) then [] else [ts_audio_unit ti t a]).
+Proof. exact ts_audio_log. Qed.
+Print Assumptions c01_mpegts_audio_write_log.
+
+Theorem c01_mpegts_log_only_grows : forall c m0 ops1 ops2,
+  start c = Ok m0 -> c_variant c = MPEGTS -> all_ok m0 (ops1 ++ ops2) ->
+  exists new, tslog (mux_run m0 (ops1 ++ ops2)) = tslog (mux_run m0 ops1) ++ new.
+Proof. exact ts_log_monotone_reachable. Qed.
+Print Assumptions c01_mpegts_log_only_grows.
+
+Theorem c01_mpegts_structure_reachable : forall c m0, start c = Ok m0 -> c_variant c = MPEGTS -> TSI m0 /\ tslog m0 = [].
+Proof. exact start_TSI. Qed.
+Print Assumptions c01_mpegts_structure_reachable.
 
 (* non-vacuity: a concrete Low-Latency muxer (H264 + AAC) and four successful writes after which the
    video stream's log holds the first two written units, in order, with their durations *)
